@@ -256,6 +256,19 @@ def observe_c13(scn: dict) -> dict | None:
         bad = cmp_table(fn_to_dict(p["args"]), a.to_dict(), f"get_args @t={p['t']}")
         if bad:
             return {**bad, "order": order, "point": p}
+        # computed coefficients are recomputed from the state supplied: stoichiometries and derivatives
+        st = m.get_stoichiometries(variables=y, time=float(p["t"]))
+        e_st = {v: fn_to_dict(row) for v, row in fn_to_dict(p["stoich"]).items()}
+        for v in st.index:
+            for fl in st.columns:
+                exp = e_st.get(v, {}).get(fl, 0)
+                if not close(exp, st.loc[v, fl]):
+                    return {"what": f"get_stoichiometries @t={p['t']}", "variable": v, "flux": fl, "expected": exp,
+                            "observed": float(st.loc[v, fl]), "order": order, "point": p}
+        bad = cmp_vector(list(p["rhs"]), m.get_right_hand_side(variables=y, time=float(p["t"])).to_numpy(),
+                         f"get_right_hand_side @t={p['t']}")
+        if bad:
+            return {**bad, "order": order, "point": p}
     # a query in between must not change what simulations start from
     y0 = Simulator(m).y0
     bad = cmp_table(e_init, dict(y0), "Simulator(model).y0")
